@@ -125,6 +125,11 @@ class Module:
                 kv.setdefault("engine", "kani")
                 kv["crate"] = self.crate
                 kv["module"] = self
+                # every entry point of a type (multi-block, buffer-to-buffer) belongs to "the type computes the standard's
+                # function for every key and block": dispatch obligations also serve the crate's conformance property
+                conf = CONFORMANCE_PROP.get(self.crate)
+                if conf and "C04" in kv["props"] and conf not in kv["props"]:
+                    kv["props"] = kv["props"] + [conf]
                 cfgs = kv["cfg"].split(",")
                 for c in cfgs:   # cfg=a,b : the same harness is an obligation under each listed configuration
                     k2 = dict(kv)
@@ -150,6 +155,9 @@ def load_ledger():
     return mods
 
 
+CONFORMANCE_PROP = {"aes": "C02", "des": "C05", "aria": "C06", "camellia": "C06", "sm4": "C06", "kuznyechik": "C07", "magma": "C07",
+                    "belt-block": "C07", "serpent": "C08", "twofish": "C08", "cast6": "C08", "blowfish": "C09", "cast5": "C09",
+                    "idea": "C09", "rc2": "C09", "xtea": "C09", "rc5": "C10", "speck": "C10", "threefish": "C10", "gift": "C10"}
 CRATE_DIR = {"belt-block": "belt-block", "gift-cipher": "gift", "speck-cipher": "speck"}
 PKG_NAME = {"gift": "gift-cipher", "speck": "speck-cipher"}
 
